@@ -195,11 +195,20 @@ def run(ctx):
     WANT = {"define": "transform_definition", "define-library": "transform_library", "lambda": "transform_lambda",
             "if": "transform_condition", "import": "transform_import_decl", "quote": "transform_quote",
             "set!": "transform_assignment", "define-syntax": "transform_syntax_definition"}
-    for k, fn in WANT.items():
-        if k not in kw:
-            ctx.report("C04-reexpand", "keyword/" + k, "core keyword %r is not recognised by transform_to_statement" % k, where_of(tts))
-        elif kw[k] != [fn]:
-            ctx.report("C04-reexpand", "keyword/" + k, "core keyword %r is handled by %s, expected %s" % (k, kw[k], fn), where_of(tts))
+    # what each core keyword is parsed as: the crate's lexer and parser on one form per keyword (readtables); the string tests of
+    # transform_to_statement only as a fallback for keywords the parser could not be followed on
+    from . import readtables as _rt04
+    kwt = _rt04.rule_keywords(ctx, "C04-reexpand")
+
+    def _kw_shape():
+        for k, fn in WANT.items():
+            if kwt.get(k) is not None:
+                continue
+            if k not in kw:
+                ctx.report("C04-reexpand", "keyword/" + k, "core keyword %r is not recognised by transform_to_statement" % k, where_of(tts))
+            elif kw[k] != [fn]:
+                ctx.report("C04-reexpand", "keyword/" + k, "core keyword %r is handled by %s, expected %s" % (k, kw[k], fn), where_of(tts))
+    ctx.guarded("C04-reexpand", all(kwt.get(k) is not None for k in WANT), _kw_shape)
     gets = [(b, t) for b, t in tts.calls() if callee_matches(t, "environment::LexicalScope::get")]
     trs = [(b, t) for b, t in tts.calls() if callee_matches(t, "Transformer::transform")]
     rec = [(b, t) for b, t in tts.calls() if callee(t) == tts.name]
@@ -242,6 +251,8 @@ def kind_table(ctx, fb, md, mds):
                     calls.append((bb, tt))
                     if c.endswith("HashSet::contains"):
                         return lit
+                    if c.endswith("HashSet::get"):
+                        return (absint.Enum(1, [tt["args"][1] and absint.operand(env, tt["args"][1])]) if lit else absint.Enum(0, []))
                     if c.endswith("::branch"):
                         # propagate: Continue(payload unknown)
                         return absint.Enum(0, [absint.UNKNOWN])
@@ -310,6 +321,11 @@ def kind_table(ctx, fb, md, mds):
                     # verdict from this row — what the matcher answers on such uses is decided by the C04-expansion tables
                     ctx.undecided("C04-kind-table", key, "%s pattern against %s datum: a test on the unknown elements comes before the "
                                   "element-wise match (calls %s)" % (pn, dn, [c.rsplit('::', 1)[-1] for c in cnames if c][:4]), where_of(md))
+                elif not ok and kind == "stuck":
+                    # the walk stopped at a test on values this row leaves unknown: no verdict from this row (what the matcher answers
+                    # on real uses is decided by the C04-expansion tables)
+                    ctx.undecided("C04-kind-table", key, "%s pattern against %s datum: the matcher's answer depends on a test this row cannot "
+                                  "follow (calls %s)" % (pn, dn, [c.rsplit('::', 1)[-1] for c in cnames if c][:4]), where_of(md))
                 elif not ok:
                     ctx.report("C04-kind-table", key, why, where_of(md))
     ctx.floor("C04-kind-table", 24)
